@@ -41,6 +41,7 @@ type EField struct {
 	F string
 }
 type EQuant struct {
+	Wit  []Expr // optional witnesses for exists (goal position only)
 	All  bool
 	Vars []string
 	Sorts []string
@@ -208,6 +209,13 @@ func (l *lexerE) unary() Expr {
 			}
 			q.Vars = append(q.Vars, v.s)
 			q.Sorts = append(q.Sorts, srt)
+			if l.peek().s == ":" && l.toks[l.p+1].s == "=" {
+				l.next()
+				l.next()
+				q.Wit = append(q.Wit, l.parse(5))
+			} else {
+				q.Wit = append(q.Wit, nil)
+			}
 			if l.peek().s == "," {
 				l.next()
 				continue
